@@ -50,6 +50,17 @@ Theorem C36_exhausted : forall pl max s ev e s', Inv s ->
 Proof. exact recv_msg_exhausted. Qed.
 Print Assumptions C36_exhausted.
 
+(* ... whole run: a watch stream that ends with anything but context.Canceled (and
+   is not blocked) ends with the error of the last stream that reached the
+   server, after a last RecvMsg that made all Max+1 attempts in vain *)
+Theorem C36_exhausted_run : forall m max script pl r t fin,
+  need_retry m = true -> run_stream m max script pl r = (t, fin) ->
+  fin <> FCtxCanceled -> fin <> FTimeout ->
+  fin = err_of (s_end (nth_script script (opens t - 1))) /\ (fin = FBreak \/ fin = FEOF) /\
+  exists tp tl, t = tp ++ tl /\ opens tl = S max /\ deliveries tl = [].
+Proof. exact retry_run_exhausted. Qed.
+Print Assumptions C36_exhausted_run.
+
 (* a cancelled context is never retried at the server: RecvMsg after the
    cancellation opens nothing that reaches the server and returns context.Canceled *)
 Theorem C36_cancelled_call : forall pl max s ev r s', Inv s -> cancelled s = true ->
